@@ -453,6 +453,8 @@ def concretize(p, perm=0, style=None):
                     stm.append(("context", "i18n:context", [i18["c"]]))
                 if i18.get("t"):
                     stm.append(("target", "i18n:target", ["'%s'" % i18["t"]]))
+                elif i18.get("tv"):
+                    stm.append(("target", "i18n:target", [i18["tv"]]))
             if it["oe"]["m"] != "no":
                 stm.append(("on-error", pre + "on-error",
                             [("structure " if it["oe"]["s"] else ""), ex((i, "oe", 0), it["oe"]["e"])]))
